@@ -298,7 +298,11 @@ func runKernels(c *reg.Ctx, n int) {
 		for _, r := range s {
 			in = append(in, Pair(N(uint64(r)), Bool(md.VerifC36IsWordRune(r))))
 		}
-		kernel(c, "esctext", App("KEscText", List(in), Runes([]rune(obs))), s, obs, s != obs)
+		var out []string
+		for _, r := range obs {
+			out = append(out, Pair(N(uint64(r)), Bool(md.VerifC36IsWordRune(r))))
+		}
+		kernel(c, "esctext", App("KEscText", List(in), List(out)), s, obs, s != obs)
 	}
 	// reflow kernel: words that need no escaping at a line start
 	for i := 0; i < n/2; i++ {
